@@ -263,6 +263,12 @@ def _map_arms(ctx, f, ex):
     if not choices or "frequency" not in choices or len(choices) != 2:
         raise AnalysisError("cli.map --map-type is not a two-way click.Choice including 'frequency': %s" % (u(typ),))
     other = [c for c in choices if c != "frequency"][0]
+    # the choice made on the command line is the one write_map_results branches on
+    from ..astutil import cli_forwards
+
+    clif = prog.fn("cli.map")
+    okf, whyf = cli_forwards(clif.node, "--map-type", f.name, f.params, "map_type")
+    ctx.check(okf, "A1", "cli.map hands --map-type to write_map_results(map_type=…)", clif.where(), "the command-line choice does not reach write_map_results (%s): the default mode is used whatever the user asked for" % whyf, construct=clif.qualname, stmt="--map-type forwarded")
     pkey = _param_key(f, "map_type")
     scan, freq = [], []
     for e in _events(ex, "from_dict"):
@@ -744,6 +750,10 @@ def _archive_plumbing(ctx):
         raise AnalysisError("write_topology_report never calls create_topologies_archive")
     ptop = _param_key(w, "top_trees")
     clif, opt = _cli_option(prog, "cli.topology_report", "--top-trees")
+    from ..astutil import cli_forwards
+
+    okf, whyf = cli_forwards(clif.node, "--top-trees", w.name, w.params, "top_trees")
+    ctx.check(okf, "A4", "cli.topology_report hands --top-trees to write_topology_report(top_trees=…)", clif.where(), "the command-line bound does not reach write_topology_report (%s)" % whyf, construct=clif.qualname, stmt="--top-trees forwarded")
     dflt = kwarg(opt, "default")
     if dflt is None:
         raise AnalysisError("cli.topology_report --top-trees has no default")
@@ -1135,6 +1145,9 @@ def run(ctx):
 _P = "phyclone/process_trace/process_trace.py"
 _R = "phyclone/run.py"
 SELFTEST = [
+    {"name": "A1-cli-map-explicit-drops-map-type", "kind": "break", "rule": "A1", "file": "phyclone/cli.py", "old": "def map(**kwargs):\n    \"\"\"Build MAP results.\"\"\"\n    write_map_results(**kwargs)\n", "new": "def map(in_file, out_table_file, out_tree_file, map_type):\n    \"\"\"Build MAP results.\"\"\"\n    write_map_results(in_file, out_table_file, out_tree_file)\n"},
+    {"name": "benign-cli-map-explicit-parameters", "kind": "benign", "file": "phyclone/cli.py", "old": "def map(**kwargs):\n    \"\"\"Build MAP results.\"\"\"\n    write_map_results(**kwargs)\n", "new": "def map(in_file, out_table_file, out_tree_file, map_type):\n    \"\"\"Build MAP results.\"\"\"\n    write_map_results(in_file, out_table_file, out_tree_file, map_type=map_type)\n"},
+    {"name": "A4-cli-topology-report-drops-top-trees", "kind": "break", "rule": "A4", "file": "phyclone/cli.py", "old": "def topology_report(**kwargs):\n    \"\"\"Build topology report.\"\"\"\n    write_topology_report(**kwargs)\n", "new": "def topology_report(in_file, out_file, topologies_archive, top_trees):\n    \"\"\"Build topology report.\"\"\"\n    write_topology_report(in_file, out_file, topologies_archive=topologies_archive)\n"},
     {"name": "I1-eq-ignores-outliers", "kind": "break", "rule": "I1", "file": "phyclone/tree/tree.py", "old": "        self_key = (self.get_clades(), frozenset(self.outliers))\n\n        other_key = (other.get_clades(), frozenset(other.outliers))\n\n        return self_key == other_key", "new": "        return self.get_clades() == other.get_clades()"},
     # ---- A6
     {"name": "A6-report-not-written", "kind": "break", "rule": "A6", "file": _P, "old": '    topology_df.to_csv(out_file, index=False, sep="\\t")\n\n    print("Topology report created', "new": '    print("Topology report created'},
